@@ -64,3 +64,16 @@ Definition mg_ok (c : mg_case) : bool :=
    (a + a' =? g_lo c + g_no c) && (b + b' =? g_ld c + g_nd c) && (d + d' =? g_lw c + g_nw c) &&
    ((a <=? N.max (g_lo c) MaxOrdersPerDexBatch) && (b <=? N.max (g_ld c) MaxDepositsPerDexBatch) && (d <=? N.max (g_lw c) MaxWithdrawsPerDexBatch))).
 Definition mg_violations (cs : list mg_case) : list N := idxf (fun c => negb (mg_ok c)) 0 cs.
+
+(* ---- the cross-chain pipeline on two real state machines (orders, deposits, withdrawals, receipts, rotations, liveness
+   fallback): what is read off the two chains after every step.  Per chain: the holding pool, the amounts of the orders and
+   deposits still pending (next batch and locked batch), the liquidity-provider points and their recorded total; for the pair:
+   the sum of all accounts and pools of both chains before the run and now (nothing is minted in the pipeline). *)
+Record pipe_side := mkSide { ps_holding : N; ps_pending : list N; ps_points : list N; ps_total_points : N }.
+Record pipe_case := mkPipe { pp_x : pipe_side; pp_y : pipe_side; pp_supply0 : N; pp_supply : N }.
+Definition sumN (l : list N) : N := fold_right N.add 0 l.
+Definition side_ok (s : pipe_side) : bool :=
+  (ps_holding s =? sumN (ps_pending s)) && (sumN (ps_points s) =? ps_total_points s).
+Definition pipe_ok (c : pipe_case) : bool := side_ok (pp_x c) && side_ok (pp_y c) && (pp_supply c =? pp_supply0 c).
+Definition pipe_violations (cs : list pipe_case) : list N := idxf (fun c => negb (pipe_ok c)) 0 cs.
+Definition pipe_mismatches (cs : list pipe_case) : list N := [].
